@@ -348,31 +348,8 @@ def _ceval(n, env):
 
 
 
-def check(repo, rep, tier):
-    rep.explanation = ("Each assertion method contains both sides of the comparison the property is about: the run-time "
-                       "check `if A op B: raise` is negated and normalised to a canonical affine relation over the symbols "
-                       "<self>, <other>, ... and compared with the relation the gadget call enforces (E >= 0, E == 0, E != 0). "
-                       "Width parameters are followed from the check into the gadget call; wrappers are checked for "
-                       "name-for-name delegation with both operands converted; the booleanity constraint is recognised as "
-                       "the polynomial x(1-x).")
-    rep.trusted = ["integer semantics of <, <=, ==", "assert_positive enforces E >= 0 (at its width), assert_zero E == 0, "
-                   "assert_nonzero E != 0 (soundness of the gadgets is C02)"]
-    rep.not_decided = ["soundness of the primitive gadgets themselves (C02)"]
-    r1 = rep.rule("R-C03-1", "run-time check and gadget state the same relation", floor=7)
-    rule_agreement(repo, r1)
-    r2 = rep.rule("R-C03-2", "width argument reaches the gadget", floor=4)
-    rule_width(repo, r2)
-    r3 = rep.rule("R-C03-3", "Boolean / fixed-point wrappers delegate name-for-name with converted operands", floor=18)
-    rule_delegation(repo, r3)
-    r4 = rep.rule("R-C03-4", "booleanity is constrained on declaration", floor=5)
-    rule_booleanity(repo, r4)
-    r5 = rep.rule("R-C03-5", "checks are suppressible, gadgets are not", floor=14)
-    rule_symmetry(repo, r5)
-    # packing: range check on unpack of secret values
-    r7 = rep.rule("R-C03-7", "declarations and assertions are enforced at every call: no 'already constrained' state skips them", floor=4)
-    from .memoryless import rule_memoryless
-    rule_memoryless(repo, r7)
-    r6 = rep.rule("R-C03-6", "packing: secret bounded integers are range-checked on unpack", floor=1)
+def rule_pack_unpack(repo, r6):
+    """secret bounded integers are range-checked on unpack (also used by C16)"""
     pk = repo.cls("pysnark.pack", "PackIntMod")
     un = pk.methods["unpack"]
     c = [x for x in ast.walk(un.node) if isinstance(x, ast.Call) and isinstance(x.func, ast.Attribute) and x.func.attr == "assert_lt"]
@@ -423,3 +400,31 @@ def check(repo, rep, tier):
                 r6.ok(un.loc(c[0]), un.fq, "assert_lt(self.mod) only if %s" % term, "evaluated for mod = 1..1099: skipped only when mod == 2^bitlen")
     else:
         r6.violation(un.loc(), un.fq, norm(un.node.body)[:120], "secret value unpacked without `assert_lt(self.mod)`", "pack/none")
+
+
+def check(repo, rep, tier):
+    rep.explanation = ("Each assertion method contains both sides of the comparison the property is about: the run-time "
+                       "check `if A op B: raise` is negated and normalised to a canonical affine relation over the symbols "
+                       "<self>, <other>, ... and compared with the relation the gadget call enforces (E >= 0, E == 0, E != 0). "
+                       "Width parameters are followed from the check into the gadget call; wrappers are checked for "
+                       "name-for-name delegation with both operands converted; the booleanity constraint is recognised as "
+                       "the polynomial x(1-x).")
+    rep.trusted = ["integer semantics of <, <=, ==", "assert_positive enforces E >= 0 (at its width), assert_zero E == 0, "
+                   "assert_nonzero E != 0 (soundness of the gadgets is C02)"]
+    rep.not_decided = ["soundness of the primitive gadgets themselves (C02)"]
+    r1 = rep.rule("R-C03-1", "run-time check and gadget state the same relation", floor=7)
+    rule_agreement(repo, r1)
+    r2 = rep.rule("R-C03-2", "width argument reaches the gadget", floor=4)
+    rule_width(repo, r2)
+    r3 = rep.rule("R-C03-3", "Boolean / fixed-point wrappers delegate name-for-name with converted operands", floor=18)
+    rule_delegation(repo, r3)
+    r4 = rep.rule("R-C03-4", "booleanity is constrained on declaration", floor=5)
+    rule_booleanity(repo, r4)
+    r5 = rep.rule("R-C03-5", "checks are suppressible, gadgets are not", floor=14)
+    rule_symmetry(repo, r5)
+    # packing: range check on unpack of secret values
+    r7 = rep.rule("R-C03-7", "declarations and assertions are enforced at every call: no 'already constrained' state skips them", floor=4)
+    from .memoryless import rule_memoryless
+    rule_memoryless(repo, r7)
+    r6 = rep.rule("R-C03-6", "packing: secret bounded integers are range-checked on unpack", floor=1)
+    rule_pack_unpack(repo, r6)
